@@ -1213,9 +1213,23 @@ def transform(fn, proceed, to_instrument=True, set_conformer=True):
         # If the function is a closure, we have created a function
         # called #WRAP that takes the closure variables as arguments
         # and returns the function that interests us.
-        actual_fn = glb.pop("#WRAP")(
-            *[cell.cell_contents for cell in fn.__closure__]
+        made = glb.pop("#WRAP")(*[None for _ in fn.__closure__])
+        # The new function must share the closure cells of the original
+        # (not copies of their contents), otherwise what it writes to a
+        # nonlocal variable is not seen by the other closures, and vice versa.
+        cells = dict(zip(fn.__code__.co_freevars, fn.__closure__))
+        actual_fn = types.FunctionType(
+            made.__code__,
+            glb,
+            made.__name__,
+            made.__defaults__,
+            tuple(cells[name] for name in made.__code__.co_freevars),
         )
+        actual_fn.__kwdefaults__ = made.__kwdefaults__
+        actual_fn.__annotations__ = made.__annotations__
+        actual_fn.__qualname__ = fn.__qualname__
+        actual_fn.__doc__ = made.__doc__
+        actual_fn.__module__ = fn.__module__
     else:
         actual_fn = glb[fname]
 
